@@ -40,7 +40,7 @@ GhostInit(S) ==
    obs |-> EmptyFn,      \* reading actor -> sequence of facts about the entry at the instant of each key lookup
    delv |-> EmptyFn,     \* key -> values hidden by a delete that has returned
    lastw |-> EmptyFn,    \* key -> [actor, kind, opid] of the write that began last
-   stale |-> {},         \* ids whose TTL index entry was registered with an expiry the entry no longer has (D13)
+   stale |-> EmptyFn,    \* id -> "D13"/"D14": its TTL index entry was written with an expiry the entry did not have at that moment
    taintK |-> EmptyFn,   \* key -> id of the recorded by-key / store-index race that hit it (D11, D12, D13)
    pairs |-> EmptyFn,    \* key -> [put, del, putDone, delDone, valid]: `put k` then `delete k` by one thread, nobody else writing k (C11)
    delold |-> EmptyFn,   \* delete operation -> values of its key that were written before the delete was issued (same thread, or by calls that had returned)
@@ -205,8 +205,16 @@ GhostNext(G, S, a, site, inp, S2, o) ==
       G10 == IF site = "K_DelUsed" THEN [G9 EXCEPT !.credit = Restrict(@, DOMAIN @ \ {L.vic.id})]
              ELSE IF site = "C_ShutClearPolicy" THEN [G9 EXCEPT !.credit = EmptyFn] ELSE G9
       \* D13: the worker registers an expiry in the index that the entry no longer has
+      \* D13 / D14: an index update (the worker's after its store write, or a caller's after its in-place update) that no longer
+      \* matches the entry: another upsert of the key ran in between
       G11 == IF site = "T_Put" /\ a = "worker" /\ (~Present(S, L.cmd.key) \/ S.store[L.cmd.key].id # L.id \/ S.store[L.cmd.key].exp # L.exp)
-             THEN [G10 EXCEPT !.stale = @ \cup {L.id}] ELSE G10
+             THEN [G10 EXCEPT !.stale = With(@, L.id, "D13")]
+             ELSE IF IsCaller(a) /\ site \in {"T_Put", "T_UpdInsert", "T_Del", "T_UpdRemove"} /\ Present(S, L.op.k) /\ S.store[L.op.k].id = L.id
+                     /\ LET written == CASE site = "T_Put" -> L.exp [] site = "T_UpdInsert" -> L.newexp [] OTHER -> NoExp
+                         IN (site \in {"T_Put", "T_UpdInsert"} /\ S.store[L.op.k].exp # written)
+                            \/ (site = "T_Del" /\ S.store[L.op.k].exp # NoExp)
+                            \/ (site = "T_UpdRemove" /\ S.store[L.op.k].exp # L.newexp)
+             THEN [G10 EXCEPT !.stale = With(@, L.id, "D14")] ELSE G10
       \* the facts at the instant of a key lookup (the read itself is atomic)
       G12 == IF site = "C_Get" /\ IsCaller(a) /\ a \in DOMAIN G11.obs /\ L.keys # <<>>
              THEN LET k == Head(L.keys)
@@ -222,10 +230,10 @@ GhostNext(G, S, a, site, inp, S2, o) ==
       G13 == IF site = "K_DelUsed" /\ L.mode # "del" /\ Present(S, L.key)
                 /\ LET e == S.store[L.key] IN
                      e.id # L.vic.id
-                     \/ (a = "sweeper" /\ (e.exp = NoExp \/ e.exp > L.t) /\ (UpsertInFlightOn(S, e.id) \/ e.id \in G.stale))
+                     \/ (a = "sweeper" /\ (e.exp = NoExp \/ e.exp > L.t) /\ (UpsertInFlightOn(S, e.id) \/ e.id \in DOMAIN G.stale))
              THEN [G12 EXCEPT !.taintK = With(@, L.key,
                         LET e == S.store[L.key] IN
-                        IF e.id # L.vic.id THEN "D11" ELSE IF UpsertInFlightOn(S, e.id) THEN "D12" ELSE "D13")] ELSE G12
+                        IF e.id # L.vic.id THEN "D11" ELSE IF UpsertInFlightOn(S, e.id) THEN "D12" ELSE G.stale[e.id])] ELSE G12
   IN G13
 
 \* the lookup facts of reader a including the lookup made in the current C_Get step
@@ -496,8 +504,8 @@ J_C10(S, a, site, inp, S2, o, G, G2) ==
          ELSE IF e.exp = NoExp \/ e.exp > L.t
          THEN IF UpsertInFlightOn(S, e.id)
               THEN <<V("C10", "known", "D12", "sweep between an upsert's store update and its index update")>>
-              ELSE IF e.id \in G.stale
-              THEN <<V("C10", "known", "D13", "index entry registered with an expiry the entry no longer had")>>
+              ELSE IF e.id \in DOMAIN G.stale
+              THEN <<V("C10", "known", G.stale[e.id], "the expiry index was written with an expiry the entry did not have (an upsert of the key ran in between)")>>
               ELSE <<V("C10", "violation", "", "a sweep removed a key without time to live or whose expiry lies in the future")>>
          ELSE <<>>
     [] o.next = "S_Done" /\ site \in {"S_Sweep", "K_DelKw", "K_DelUsed"} ->
@@ -515,8 +523,10 @@ J_C10q(S, a, site, inp, S2, o, G, G2) ==
                          LET e == S2.store[k] s == ShardOf(S2, e.exp)
                          IN ~(e.id \in DOMAIN S2.ttl[s] /\ S2.ttl[s][e.id] = e.exp)}
        IN IF missing = {} THEN <<>>
-          ELSE IF \A k \in missing : k \in DOMAIN G2.taintK \/ S2.store[k].id \in G2.stale
-          THEN <<V("C10", "known", "D13", "expiry index out of step with the store after a recorded race")>>
+          ELSE IF \A k \in missing : k \in DOMAIN G2.taintK \/ S2.store[k].id \in DOMAIN G2.stale
+          THEN <<V("C10", "known", LET k == CHOOSE x \in missing : TRUE IN
+                                   IF S2.store[k].id \in DOMAIN G2.stale THEN G2.stale[S2.store[k].id] ELSE G2.taintK[k],
+                   "expiry index out of step with the store after a recorded race")>>
           ELSE <<V("C10", "violation", "", "a key with a time to live is not registered for expiry: it would never be swept")>>
 
 -----------------------------------------------------------------------------
